@@ -90,7 +90,7 @@ class Ctx(object):
         loc = ''
         if node is not None and file is not None:
             loc = '%s:%d ' % (file, getattr(node, 'lineno', 0))
-        self.instances.append((rid, '%s%s' % (loc, construct), verdict, note))
+        self.instances.append((rid, '%s%s' % (loc, construct), verdict, note, bool(nontrivial)))
 
     def violation(self, rid, file, node, construct, msg, stmt=None, extra=None):
         line = getattr(node, 'lineno', 0) if node is not None else 0
@@ -158,10 +158,10 @@ def finish(ctx, known, t0, controls=None, selftest=None, seed=0, level='other',
         print('  %s %s:%d %s\n      stmt: %s\n      %s' % (f.rule, f.file, f.line, f.construct, f.stmt, f.msg))
         print('VIOLATION property=%s replay=%s' % (f.prop, p))
     evaluations = sum(c[0] for c in ctx.rule_counts.values())
-    nontrivial = len({(i[0], i[1]) for i in ctx.instances if i[2] != 'trivial'})
+    nontrivial = len({(i[0], i[1]) for i in ctx.instances if i[4]})
     samples = []
     seen_rules = {}
-    for rid, cons, verdict, note in ctx.instances:
+    for rid, cons, verdict, note, _nt in ctx.instances:
         k = seen_rules.get(rid, 0)
         if k < 4:
             samples.append('%s | %s -> %s%s' % (rid, cons, verdict, (' (' + note + ')') if note else ''))
@@ -178,7 +178,8 @@ def finish(ctx, known, t0, controls=None, selftest=None, seed=0, level='other',
             'evaluations': evaluations,
             'distinct_nontrivial': nontrivial,
             'rule': 'one evaluation = one rule instance (a construct of /repo on which a rule had to decide); '
-                    'non-trivial = the rule had something to decide there (not discharged vacuously); distinct by (rule, construct)',
+                    'non-trivial = the rule had something to decide there (not discharged vacuously: e.g. a function without stores for the purity rule, an exempt receiver, '
+                    'a loop that is not on a decode path are counted as evaluations but not as non-trivial); distinct by (rule, construct)',
             'samples': samples,
             'obligations': obligations,
             'discharged': discharged,
